@@ -407,6 +407,45 @@ Theorem C09_goaway_first_only_refuted :
 Proof. exact goaway_first_only_refuted. Qed.
 Print Assumptions C09_goaway_first_only_refuted.
 
+(* ---------- (round 8) the request side at the end of an exchange; the shared receive window ---------- *)
+
+(* an HTTP/1.1 connection whose write loop has not reported (it is still inside the request
+   body) is never handed to another request, whatever the response side looks like *)
+Theorem C09_unreported_write_never_recycled : forall alive has_body eof saw_eof,
+  recycle_ok (mkRecycle alive has_body eof saw_eof (wrote_request WNotYet)) = false.
+Proof. exact unreported_write_never_recycled. Qed.
+Print Assumptions C09_unreported_write_never_recycled.
+
+Theorem C09_lenient_wrote_request_refuted :
+  recycle_ok (mkRecycle true true true false (wrote_request_lenient WNotYet)) = true.
+Proof. exact lenient_wrote_request_refuted. Qed.
+Print Assumptions C09_lenient_wrote_request_refuted.
+
+(* HTTP/2 connection-level receive window: window + buffered bytes is constant for every
+   sequence of DATA / Read / early Close on any streams; once every body is read or closed the
+   whole window is back - an abandoned body cannot starve the other callers of the connection *)
+Theorem C09_conn_window_conserved : forall n evs s,
+  (forall e, In e evs -> match e with FData i _ | FRead i _ | FClose i => i < n end) ->
+  f_respects s evs = true ->
+  let s' := fold_left f_step evs s in
+  f_window s' + f_total n (f_buffered s') = f_window s + f_total n (f_buffered s).
+Proof. exact conn_window_conserved. Qed.
+Print Assumptions C09_conn_window_conserved.
+
+Theorem C09_conn_window_restored : forall n w evs,
+  (forall e, In e evs -> match e with FData i _ | FRead i _ | FClose i => i < n end) ->
+  f_respects (mkFS w (fun _ => 0)) evs = true ->
+  (forall i, i < n -> f_buffered (f_run f_step w evs) i = 0) ->
+  f_window (f_run f_step w evs) = w.
+Proof. exact conn_window_restored. Qed.
+Print Assumptions C09_conn_window_restored.
+
+Theorem C09_close_without_refund_refuted :
+  f_window (f_run f_step 128 [FData 0 60; FClose 0; FData 1 60; FClose 1]) = 128 /\
+  f_window (f_run f_step_noreturn 128 [FData 0 60; FClose 0; FData 1 60; FClose 1]) = 8.
+Proof. exact close_without_refund_refuted. Qed.
+Print Assumptions C09_close_without_refund_refuted.
+
 (* non-vacuity of the HTTP/2 and HTTP/3 machines: two requests share one dialled connection with
    stream ids 1 and 3, a third id is 5 after the first finished; the HTTP/3 client is closed by
    CloseIdleConnections only after its request finished *)
